@@ -74,6 +74,12 @@ def correspondence(ctx, model_available=True):
     quick = ctx.tier == "quick"
     rng = ctx.rng
     cases = [(n, t, ec.rand_state(rng)) for n, t in gen_ops(rng, quick)]
+    for _, _, st_ in cases:
+        # the whole expansion (up to four instructions) lies inside a program of at most 65535 instructions: from pc = 65534
+        # a label-form CALL would save the "address" 65537, which no program can reach (on seed C03i the first reported
+        # difference was the masking of that value, not the wrong jump)
+        if st_.pc > 65530:
+            st_.pc = 65530
     impl = [run_real_pseudo(n, t, st) for n, t, st in cases]
     res = {"cases": len(cases), "disagreements": [], "spec_failures": [], "model_available": model_available,
            "distribution": {}}
@@ -166,6 +172,26 @@ def program_level_oracle(rng, quick):
                 problems.append("FSET5(%d); %s(first) ...: registers R1..R6 end as %r%s, expected %r (the branch is %staken; every "
                                 "label names the instruction after it)" % (m, b, got, " (%s)" % exc if exc else "", want, "" if taken else "not "))
                 break
+    # CALL(Ra, label) reaches the label whatever register Ra is - R13 and FP themselves included, where the register
+    # exchanges overlap (the theorems leave those two open; that the call arrives is not open: seed C03i exchanged FP
+    # with Ra first and CALL(R13, label) then jumped to the old frame pointer)
+    for a in range(16):
+        m1, m2 = (7, 8) if a in (5, 6) else (5, 6)
+        text = ("SET(FP, 0x1234)\nSET(R13, 0x0bad)\nCALL(R%d, target)\nSETLO(R%d, 1)\nHALT()\nNOP()\nNOP()\nLABEL(target)\n"
+                "SETLO(R%d, 2)\nHALT()\n" % (a, m1, m2))
+        st = Settings()
+        st.throttle = 50
+        prog, exc, _, _ = run_real(lambda: load_program(text, st))
+        if exc or prog is None:
+            problems.append("loading a program with CALL(R%d, label) failed: %s" % (a, exc))
+            break
+        vm = VirtualMachine(st)
+        _, exc, _, _ = run_real(lambda: vm.run(prog))
+        if exc or vm.registers[m2] != 2 or vm.registers[m1] != 0 or not vm.halted:
+            problems.append("SET(FP, 0x1234); SET(R13, 0x0bad); CALL(R%d, target): control does not arrive at the label (marker "
+                            "registers R%d = %d, R%d = %d, pc = %d, halted = %s%s)"
+                            % (a, m1, vm.registers[m1], m2, vm.registers[m2], vm.pc, vm.halted, ", %s" % exc if exc else ""))
+            break
     return problems
 
 
